@@ -171,7 +171,10 @@ static bool mbuf_has_complete_hdr(struct mbuf *b)
 
 static bool mbuf_is_hdr_valid(struct mbuf *b)
 {
+    /* zero-length messages do not exist on the wire (xcm_send() refuses
+       them), so such a header is a protocol violation, too */
     return  mbuf_has_complete_hdr(b) &&
+	mbuf_complete_payload_len(b) > 0 &&
 	mbuf_complete_payload_len(b) <= MBUF_MSG_MAX;
 }
 
